@@ -22,6 +22,18 @@ def p_roundtrip(s):
         return '%r prints as %r which parses to %r, not %r' % (s, p, v2.tuple(), v.tuple())
     if str(v2) != p:
         return 'printing is not idempotent: %r then %r' % (p, str(v2))
+    # every way of printing gives the same text
+    import copy
+    import pickle
+    ways = {'format(v)': format(v), 'f-string': f'{v}', '{}.format': '{}'.format(v), '{!s}': '{!s}'.format(v), '%s': '%s' % (v,),
+            'str of a copy': str(copy.copy(v)), 'str of a deep copy': str(copy.deepcopy(v)),
+            'str after pickling': str(pickle.loads(pickle.dumps(v))), 'second str': str(v)}
+    for how, txt in ways.items():
+        if txt != p:
+            return '%s of %r gives %r, str() gives %r' % (how, s, txt, p)
+    v3 = pickle.loads(pickle.dumps(v))
+    if not (v3 == v) or hash(v3) != hash(v) or v3.tuple() != v.tuple() or v3.compare(v) != 0:
+        return 'a pickled and reloaded %r is not the same version' % s
     # the printed form differs from the trimmed input at most by the epoch and an omitted -0
     t = s.strip()
     e, _, rest = t.partition(':') if ':' in t else ('', '', t)
